@@ -10,6 +10,26 @@ SOLO_TECH = ("TLA+ single-handler adversarial model (Solo.tla over the SrcCore /
              "TLC invariant of every input sequence up to the depth bound; TLC-enumerated sequences replayed into the real "
              "handler; recorded executions validated against the transducers and judged by the same TLA+ monitor")
 CLAIMED = {
+    "C05": dict(
+        text="The C05 monitor - an independent write model over the whole sandbox tree (created / truncated empty at the accepted "
+             "Metadata, directory targets resolved with the source base name, zero-filled writes per accepted File Data PDU, "
+             "deletion only on cancel-with-disposition, nothing anywhere else, data before Metadata never written) - is a TLC "
+             "invariant of every sequence of Metadata / File Data (grid, overlapping, duplicate, zero-length, beyond EOF) / EOF "
+             "(right, wrong, cancel) / ACK / cancel / poll inputs up to depth 6 over DstCore in both modes and four target "
+             "shapes; the sequences, seeded random and grid-driven destination runs and two-entity fault schedules are executed "
+             "on a real DestHandler with a sandboxed NativeFilestore, whose tree is snapshotted after every call.",
+        ref="DESIGN.md section 6 C05", tech=SOLO_TECH,
+        note="Trusted: TLC; the sandbox snapshot. 'Accepted' = no exception + File-Segment-Recv indication for that PDU + write not "
+             "rejected by the environment."),
+    "C06": dict(
+        text="The C06 monitor - an independent interval model (stored bytes, known extent, metadata seen, EOF size): every request "
+             "inside the extent and disjoint from what was stored before the call, (0,0) only while metadata is missing, every "
+             "deferred sequence exactly [0, EOF size) minus stored, scope enclosure, encoded length <= max packet length - is a "
+             "TLC invariant of every arrival order / loss / duplication of a grid-segmented file with Metadata and EOF anywhere, "
+             "polls and timer expiries, both NAK modes and 1 / 2 / many requests per PDU over DstCore; sequences, grid-driven "
+             "runs answered like a lossy source and two-entity K<=2 schedules are executed on the real DestHandler.",
+        ref="DESIGN.md section 6 C06", tech=SOLO_TECH,
+        note="Trusted: TLC; harness projection. File Data aligned to the sender's grid (DESIGN.md reading)."),
     "C07": dict(
         text="The C07 monitor (Metadata first with true size / names / checksum type / closure; File Data consecutive from 0, "
              "non-empty, within min(configured, derived) segment length, the file's bytes, one per call; EOF with the file's size "
